@@ -25,6 +25,11 @@ pub struct ConcProfile {
   /// probability (percent) of the hold-open liveness variant
   pub hold_open_pct: u64,
   pub max_tokens_per_producer: u64,
+  /// capacities to draw from
+  pub caps: Vec<usize>,
+  /// only the blocking single-item forms (`send` / `recv`), no chaos ops in between: the plain
+  /// park / wake handshake, repeated on a channel that is full or empty most of the time
+  pub blocking_only: bool,
 }
 
 impl ConcProfile {
@@ -39,6 +44,8 @@ impl ConcProfile {
       lifecycle: true,
       hold_open_pct: 30,
       max_tokens_per_producer: 10,
+      caps: vec![1, 1, 2, 2, 3, 4, 5, 8],
+      blocking_only: false,
     }
   }
 }
@@ -68,6 +75,11 @@ impl ConcFamily {
     let mut ops = vec![];
     let mut left = if fl == Flavour::Oneshot { 1 } else { quota };
     while left > 0 {
+      if p.blocking_only {
+        left -= 1;
+        ops.push(POp::Send { form: SendForm::Single, n: 1, plan: Plan::NONE });
+        continue;
+      }
       // life-cycle / chaos ops in between
       match rng.below(20) {
         0 if p.asyncness == 2 && fl.has_conversions() => ops.push(POp::Convert),
@@ -96,7 +108,7 @@ impl ConcFamily {
   fn gen_consumer(&self, rng: &mut Rng, fl: Flavour, allow_quota: bool, total: u64) -> Consumer {
     let p = &self.profile;
     let mut ops = vec![];
-    let k = rng.range(1, 4);
+    let k = if p.blocking_only { 0 } else { rng.range(1, 4) };
     for _ in 0..k {
       match rng.below(16) {
         0 if p.asyncness == 2 && fl.has_conversions() => ops.push(COp::Convert),
@@ -121,7 +133,7 @@ impl ConcFamily {
       ops.push(COp::Recv { form, max: rng.range(1, 4) as u8, timeout_ns: *rng.pick(&[1u64, 1_000, 1_000_000, 50_000_000]), plan: gen_plan(rng, p.cancel) });
     }
     // the cycle always ends with a plain blocking receive, so a consumer never just spins
-    let last_form = if fl.has_batch() && rng.chance(1, 3) { RecvForm::Batch } else { RecvForm::Single };
+    let last_form = if !p.blocking_only && fl.has_batch() && rng.chance(1, 3) { RecvForm::Batch } else { RecvForm::Single };
     ops.push(COp::Recv { form: last_form, max: rng.range(1, 3) as u8, timeout_ns: 0, plan: Plan { swap_waker: rng.chance(1, 6), ..Plan::NONE } });
     let quota = if allow_quota && p.lifecycle && rng.chance(1, 4) { Some(rng.range(1, total.max(1)) as u16) } else { None };
     let at_end = if p.lifecycle { *rng.pick(&[AtEnd::Drop, AtEnd::Drop, AtEnd::Close, AtEnd::CloseThenUse]) } else { AtEnd::Drop };
@@ -144,7 +156,7 @@ impl Family for ConcFamily {
     let p = &self.profile;
     let flavours: Vec<Flavour> = p.flavours.iter().copied().filter(|f| p.asyncness != 0 || *f != Flavour::Oneshot).collect();
     let fl = *rng.pick(&flavours);
-    let cap = *rng.pick(&[1usize, 1, 2, 2, 3, 4, 5, 8]);
+    let cap = *rng.pick(&p.caps);
     let async_ctor = match p.asyncness {
       0 => false,
       1 => true,
